@@ -119,11 +119,7 @@ func c19GenSafety(t *rapid.T) C19Case {
 	if rapid.Bool().Draw(t, "skewed") {
 		c.Skew = rapid.SliceOfN(rapid.SampledFrom([]int{0, 0, 1, 500, 3000}), c.N, c.N).Draw(t, "skew")
 	}
-	maxEv := 250
-	if c.N == 7 {
-		maxEv = c19MaxEvents
-	}
-	ne := rapid.IntRange(30, maxEv).Draw(t, "nev")
+	ne := rapid.IntRange(30, c19MaxEvents).Draw(t, "nev")
 	c.Evs = rapid.SliceOfN(rapid.Custom(c19GenEv(c.N)), ne, ne).Draw(t, "evs")
 	return c
 }
